@@ -33,7 +33,7 @@ def read_plan(rng, L, S, n, align, exhaustive):
 
 def scaled_exec(rng, L, S, buf, n, align, exhaustive, losses):
     ex = [{"ev": "reset", "large": L, "small": S, "buf": buf, "n": n, "unit": 1, "ka": rng.randrange(1, 251),
-           "kb": rng.randrange(0, 251), "real": False}, {"ev": "encode"}]
+           "kb": rng.randrange(0, 251), "real": False, "vol": False}, {"ev": "encode"}]
     ex += read_plan(rng, L, S, n, align, exhaustive)
     ex += [{"ev": "rebuild", "lost": l} for l in losses]
     return ex
@@ -42,7 +42,7 @@ def scaled_exec(rng, L, S, buf, n, align, exhaustive, losses):
 def real_exec(rng, n, nreads, losses, nneedles=30):
     """production block sizes (large = small = 0 in the reset line: not representable in TLC)"""
     ex = [{"ev": "reset", "large": 0, "small": 0, "buf": 0, "n": n, "unit": 1, "ka": rng.randrange(1, 251),
-           "kb": rng.randrange(0, 251), "real": True}, {"ev": "encode"}]
+           "kb": rng.randrange(0, 251), "real": True, "vol": False}, {"ev": "encode"}]
     offs = set()
     for _ in range(nreads):
         if n >= 16:
@@ -75,26 +75,118 @@ def real_exec(rng, n, nreads, losses, nneedles=30):
     return ex
 
 
+VOL_RESET = {"ev": "reset", "large": 0, "small": 0, "buf": 0, "n": 0, "unit": 1, "ka": 1, "kb": 0, "real": True, "vol": True}
+VOL_KEYS = (1, 2, 3)
+
+
+def vol_exec(rng, h, big=False):
+    """one execution from a TLC history of the volume life cycle (EcLayoutVol.tla): inputs only. The content
+    tokens are renamed consistently (a: a few bytes, L: a few hundred bytes / 70 KB / with big: 4 MiB, so that
+    three needles need two small block rows), the loss set of a rebuild is drawn from all sets of <= 4
+    shards, and reads of every key are inserted wherever reading is possible (EC read path while erasure
+    coded, the loaded volume after a decode)."""
+    ren = {"a": rng.choice(("a", "b")), "L": "H" if big else rng.choice(("L", "L", "M"))}
+    ex = [dict(VOL_RESET)]
+    loaded = False
+    for op in h:
+        op = dict(op)
+        if "d" in op:
+            op["d"] = ren.get(op["d"], op["d"])
+        if op["ev"] == "rebuild":
+            op["lost"] = rng.choice(ALL_LOSS)
+        ex.append(op)
+        if op["ev"] in ("vencode", "vecdelete", "rebuild", "vfold"):
+            ex += [{"ev": "vecread", "k": k} for k in VOL_KEYS]
+        elif op["ev"] == "vload" or (op["ev"] == "vwrite" and loaded):
+            loaded = True
+            ex += [{"ev": "vread", "k": k} for k in VOL_KEYS]
+    return ex
+
+
+def vol_signature(h):
+    """what a history exercises (python only groups by it to spread the sample)"""
+    live, sig, enc, ecdel = {}, set(), False, False
+    for op in h:
+        ev = op["ev"]
+        if ev == "vwrite" and not enc:
+            sig.add("same" if live.get(op["k"]) == op["d"] else "over" if live.get(op["k"]) else "w")
+            live[op["k"]] = op["d"]
+        elif ev == "vdelete":
+            sig.add("del" if live.get(op["k"]) else "deldead")
+            live[op["k"]] = None
+        elif ev == "vencode":
+            enc = True
+            sig.add("enc%d" % sum(1 for v in live.values() if v))
+        elif ev == "vecdelete":
+            sig.add("ecdel" if live.get(op["k"]) else "ecdeldead")
+            live[op["k"]] = None
+        elif ev in ("vfold", "vdecode"):
+            sig.add(ev + ("-stale" if op["stale"] else ""))
+        else:
+            sig.add(ev)
+    sig.add("live%d" % sum(1 for v in live.values() if v))
+    return tuple(sorted(sig))
+
+
+def spread_sample(rng, hs, k):
+    """k histories, taken round robin from the groups of equal signature"""
+    groups = {}
+    for h in sorted(hs, key=lambda h: json.dumps(h, sort_keys=True)):
+        groups.setdefault(vol_signature(h), []).append(h)
+    for g in groups.values():
+        rng.shuffle(g)
+    out, keys = [], sorted(groups)
+    while len(out) < k and keys:
+        for sg in list(keys):
+            if groups[sg]:
+                out.append(groups[sg].pop())
+                if len(out) >= k:
+                    break
+            else:
+                keys.remove(sg)
+    return out, len(groups)
+
+
+def appended_big(h):
+    """number of pre-encode writes of the long token that append a record"""
+    live, c = {}, 0
+    for op in h:
+        if op["ev"] == "vencode":
+            break
+        if op["ev"] == "vwrite":
+            if op["d"] == "L" and live.get(op["k"]) != "L":
+                c += 1
+            live[op["k"]] = op["d"]
+        elif op["ev"] == "vdelete":
+            live[op["k"]] = None
+    return c
+
+
 def run(ctx):
-    ctx.sany("EcLayout", "EcLayoutTrace")
+    ctx.sany("EcLayout", "EcLayoutVol", "EcLayoutTrace")
     rng = random.Random(ctx.seed)
     T = ctx.thorough
+    # C06_SHARE=vol (by hand, mutation testing of the decode share): only the volume life cycle executions
+    only_vol = os.environ.get("C06_SHARE") == "vol"
     # ---- 1. the arithmetic, model-checked: encoder placement, locator (tree / original), decoder
     blocks10 = {(4, 1), (8, 2), (6, 2), (6, 3), (16, 2)} if T else {(8, 2)}
-    mc = ctx.instance("MC_EcLayout", "EcLayout", "EcLayout_mc.cfg",
-                      {"DataShards": 10, "Blocks": blocks10, "MaxRows": 3, "GenNear": {0}})
-    ctx.model_check(mc, workers=4, label="locator loop as transition system, 10 data shards, every dat size <= 3 large rows")
-    brute = ctx.instance("MC_EcBrute", "EcLayout", "EcLayout_brute.cfg",
-                         {"DataShards": 3, "Blocks": {(4, 1), (6, 2), (8, 2)} if T else {(4, 1)},
-                          "MaxRows": 2, "GenNear": {0}})
-    ctx.model_check(brute, workers=4, label="brute force: every (dat size, offset, size), 3 data shards")
-    if T:
-        brute10 = ctx.instance("MC_EcBrute10", "EcLayout", "EcLayout_brute.cfg",
-                               {"DataShards": 10, "Blocks": {(4, 1)}, "MaxRows": 1, "GenNear": {0}})
-        ctx.model_check(brute10, workers=4, label="brute force, 10 data shards, dat size <= 1 large row")
+    if not only_vol:
+        mc = ctx.instance("MC_EcLayout", "EcLayout", "EcLayout_mc.cfg",
+                          {"DataShards": 10, "Blocks": blocks10, "MaxRows": 3, "GenNear": {0}})
+        ctx.model_check(mc, workers=4, label="locator loop as transition system, 10 data shards, every dat size <= 3 large rows")
+        brute = ctx.instance("MC_EcBrute", "EcLayout", "EcLayout_brute.cfg",
+                             {"DataShards": 3, "Blocks": {(4, 1), (6, 2), (8, 2)} if T else {(4, 1)},
+                              "MaxRows": 2, "GenNear": {0}})
+        ctx.model_check(brute, workers=4, label="brute force: every (dat size, offset, size), 3 data shards")
+        if T:
+            brute10 = ctx.instance("MC_EcBrute10", "EcLayout", "EcLayout_brute.cfg",
+                                   {"DataShards": 10, "Blocks": {(4, 1)}, "MaxRows": 1, "GenNear": {0}})
+            ctx.model_check(brute10, workers=4, label="brute force, 10 data shards, dat size <= 1 large row")
 
     # ---- 2. inputs: TLC enumerates the dat sizes on and around every row boundary / window edge
     def sizes_from_tlc(L, S, near, rows=3):
+        if only_vol:
+            return []
         g = ctx.instance("G_Ec_%d_%d" % (L, S), "EcLayout", "SPECIFICATION GenSpec\nINVARIANT EmitSize\nCHECK_DEADLOCK FALSE",
                          {"DataShards": 10, "Blocks": {(L, S)}, "MaxRows": rows, "GenNear": set(near)})
         return sorted(h["n"] for h in ctx.generate(g, workers=1))
@@ -104,10 +196,10 @@ def run(ctx):
 
     execs = []
     # (a) bytes: L=4, S=1: every dat size, every offset
-    for n in range(0, (3 if T else 2) * 40 + 6):
+    for n in range(0, 0 if only_vol else (3 if T else 2) * 40 + 6):
         execs.append(scaled_exec(rng, 4, 1, 1, n, 1, T, losses(2 if T else 1)))
     # (b) bytes: L=8, S=2 (the design's scale), two buffer sizes
-    ns = range(0, 3 * 80 + 4) if T else sizes_from_tlc(8, 2, (-1, 0, 1))
+    ns = range(0, 3 * 80 + 4) if T and not only_vol else sizes_from_tlc(8, 2, (-1, 0, 1))
     for n in ns:
         execs.append(scaled_exec(rng, 8, 2, rng.choice((1, 2)), n, 1, T and n % 80 in (0, 1, 41, 60, 61),
                                  losses(None if T and n in (80, 161) else 2)))
@@ -115,7 +207,7 @@ def run(ctx):
     for n in sizes_from_tlc(64, 16, (-8, -1, 0, 1, 8) if T else (-8, 0, 8)):
         execs.append(scaled_exec(rng, 64, 16, rng.choice((8, 16)), n, 8, T and n % 640 in (0, 8, 480, 488),
                                  losses(2 if T else 1)))
-    if T:
+    if T and not only_vol:
         # (d) other ratios large/small
         for (L, S) in ((6, 2), (6, 3), (16, 2)):
             for n in sizes_from_tlc(L, S, (-1, 0, 1)):
@@ -125,7 +217,7 @@ def run(ctx):
     rscript = os.path.join(ctx.out, "script-real.ndjson")
     # (e) production block sizes: small rows only (a large row needs > 10 GiB)
     reals = [real_exec(rng, 10 * MIB + 8 * rng.randrange(1, 1000), 40, losses(3))]
-    if T:
+    if T and not only_vol:
         reals += [real_exec(rng, 20 * MIB, 150, losses(6)), real_exec(rng, 20 * MIB + 1, 100, losses(4)),
                   real_exec(rng, 23 * MIB + 12345, 300, losses(8), 120), real_exec(rng, 1, 1, losses(4)),
                   real_exec(rng, 0, 0, losses(4))]
@@ -134,11 +226,45 @@ def run(ctx):
         # (comma separated), production encoder and decoder, e.g. C06_HUGE=10240,10241 for one large row
         for mib in os.environ["C06_HUGE"].split(","):
             reals.append([{"ev": "reset", "large": 0, "small": 0, "buf": 0, "n": int(mib), "unit": MIB, "ka": 7, "kb": 0,
-                           "real": True}, {"ev": "encode"}, {"ev": "decode", "size": int(mib)}])
+                           "real": True, "vol": False}, {"ev": "encode"}, {"ev": "decode", "size": int(mib)}])
+    # (f) the life cycle of real volumes (B4: decode share): TLC enumerates the histories (EcLayoutVol.tla: the
+    # layer-A actions of EcLayout.tla + a ghost of the data file / .ecx marks / .ecj journal), checks the design-level
+    # invariants on the way and prints one shortest history per distinct view that went all the way (encoded,
+    # decoded, loaded, written again)
+    vscript = os.path.join(ctx.out, "script-vol.ndjson")
+    vbase = {"DataShards": 10, "Blocks": set(), "MaxRows": 0, "GenNear": set(), "VKeys": set(VOL_KEYS), "VLoss": {(0,)}}
+    vcfg = open(os.path.join(vf.SPEC, "EcLayout_vol.cfg")).read()
+    if T:
+        vmc = ctx.instance("MC_EcVol", "EcLayoutVol", vcfg,
+                           dict(vbase, VDatas={"a", "L"}, VMaxOps=8, VMaxPre=3, VMaxEc=2, VMaxPost=1, VMaxCyc=1))
+        ctx.model_check(vmc, workers=4, timeout=1800, label="volume life cycle, every history of <= 8 steps (no view)")
+    g2 = ctx.instance("G2_EcVol", "EcLayoutVol", vcfg + "INVARIANT EmitW\nVIEW GView\n",
+                      dict(vbase, VDatas={"a", "L"}, VMaxOps=10 if T else 9, VMaxPre=3, VMaxEc=3 if T else 2,
+                           VMaxPost=1, VMaxCyc=1))
+    vh = ctx.generate(g2, workers=4, timeout=1800)
+    vrng = random.Random(7919 * ctx.seed + 6)    # own stream: the same sample with and without C06_SHARE=vol
+    vols, ngroups = spread_sample(vrng, vh, 900 if T else 90)
+    vexecs = [vol_exec(vrng, h) for h in vols]
+    deep = []
+    if T:
+        # longer random histories, two encode / decode cycles
+        g3 = ctx.instance("G3_EcVol", "EcLayoutVol", "SPECIFICATION GSpec\nINVARIANT Emit\nCHECK_DEADLOCK FALSE",
+                          dict(vbase, VDatas={"a", "L"}, VMaxOps=18, VMaxPre=5, VMaxEc=4, VMaxPost=2, VMaxCyc=2))
+        deep = ctx.generate(g3, simulate=300, depth=19)
+        vexecs += [vol_exec(vrng, h) for h in deep]
+    # data files of more than 10 MiB (two small block rows): histories with three or more appended long needles
+    bigs, _ = spread_sample(vrng, [h for h in vh + deep if appended_big(h) >= 3], 10 if T else 2)
+    vexecs += [vol_exec(vrng, h, big=True) for h in bigs]
+    ctx.notes["volume_life_cycle"] = "%d histories from TLC in %d signature groups, %d driven (%d with a data file > 10 MiB)" % (
+        len(vh), ngroups, len(vexecs), len(bigs))
+    if only_vol:
+        script, rscript = None, None
     if ctx.replay:
-        script, rscript = ctx.replay, None
+        script, rscript, vscript = ctx.replay, None, None
     else:
-        for path, xs in ((script, execs), (rscript, reals)):
+        for path, xs in ((script, execs), (rscript, reals), (vscript, vexecs)):
+            if path is None:
+                continue
             with open(path, "w") as f:
                 for ex in xs:
                     for e in ex:
@@ -175,16 +301,33 @@ def run(ctx):
     # temp dirs of the driver (and the log files glog insists on) live and die with ctx.out
     tmp = os.path.join(ctx.out, "tmp")
     os.makedirs(tmp, exist_ok=True)
-    trace = ctx.drive(binp, ["--script", script], name="trace", env={"TMPDIR": tmp})
-    ctx.judge("EcLayoutTrace", trace, "trace_base.cfg", consts, nontrivial=nontrivial, mutate=corrupt_read)
+    trace = None
+    if script:
+        trace = ctx.drive(binp, ["--script", script], name="trace", env={"TMPDIR": tmp})
+        ctx.judge("EcLayoutTrace", trace, "trace_base.cfg", consts, nontrivial=nontrivial, mutate=corrupt_read)
     if rscript:
         rtrace = ctx.drive(binp, ["--script", rscript], name="trace-real", env={"TMPDIR": tmp},
                            timeout=14400 if os.environ.get("C06_HUGE") else 1200)
         ctx.judge("EcLayoutTrace", rtrace, "trace_base.cfg", consts, nontrivial=nontrivial, mutate=corrupt_hash,
                   label="r")
 
+    if vscript:
+        def corrupt_vread(evs):
+            seen = False
+            for i, e in enumerate(evs):
+                seen = seen or e["ev"] == "vload"
+                if seen and e["ev"] == "vread" and e["st"] == "data":
+                    m = [dict(x) for x in evs]
+                    m[i]["d"] = "a" if e["d"] != "a" else "b"
+                    return m
+            return None
+
+        vtrace = ctx.drive(binp, ["--script", vscript], name="trace-vol", env={"TMPDIR": tmp}, timeout=2400)
+        ctx.judge("EcLayoutTrace", vtrace, "trace_base.cfg", consts, mutate=corrupt_vread, label="v",
+                  nontrivial=lambda e: any('"ev":"vdecode"' in x or '"ev":"rebuild"' in x for x in e))
+
     # ---- 3. advisory (model drift, never a verdict): are the shards laid out as Place says?
-    lay = [e[:2] for e in vf.split_execs(trace) if len(e) >= 2 and '"real":false' in e[0] and '"ev":"encode"' in e[1]]
+    lay = [e[:2] for e in (vf.split_execs(trace) if trace else []) if len(e) >= 2 and '"real":false' in e[0] and '"ev":"encode"' in e[1]]
     if lay:
         tf = os.path.join(ctx.out, "layout.ndjson")
         vf.annotate(lay, tf)
@@ -207,11 +350,20 @@ def run(ctx):
                 "EVERY offset (8-aligned for (64,16)) with %s through LocateData(10*shard size)+ToShardIdAndOffset+ReadAt; "
                 "rebuilds after removing %s; plus executions with the production block sizes (10-23 MiB data files: WriteEcFiles, "
                 "reads, RebuildEcFiles, the real EcVolume + EcVolumeShards over an index of made-up needles (LocateEcShardNeedle + shard ReadAt), "
-                "WriteDatFile). non-trivial = at least two read/rebuild events; distinct by hash of "
-                "the recorded execution" % ("every size for (4,1) and for the boundary/window files of (8,2) and (64,16), sampled sizes elsewhere" if T
+                "WriteDatFile); plus the life cycle of REAL volumes (%s TLC-generated histories over 3 keys, EcLayoutVol.tla: needles written, "
+                "overwritten and deleted through storage.Store, also none at all / a tombstone as last record; WriteEcFiles + "
+                "WriteSortedFileFromIdx; the real EcVolume: every key read through LocateEcShardNeedle + shard ReadAt + needle parsing after "
+                "every step, DeleteNeedleFromEcx; <= 4 shard files removed + RebuildEcFiles; the .ecj journal folded (RebuildEcxFile) or "
+                "not, on the .ecx that carries the deletion marks or on one that has not seen them; FindDatFileSize + WriteDatFile + "
+                "WriteIdxFileFromEcIndex; the decoded volume loaded by the real loader, every key read, a new write, every key read "
+                "again; %s with a data file > 10 MiB = two small block rows). non-trivial = at least two read/rebuild events resp. a "
+                "decode or rebuild of a real volume; distinct by hash of the recorded execution" % ("every size for (4,1) and for the boundary/window files of (8,2) and (64,16), sampled sizes elsewhere" if T
                                             else "sizes ending on/around every block and row boundary + random ones",
                                             "every one of the 1470 loss sets of <= 4 shards on 2 files, 2-3 sampled sets on every other file"
-                                            if T else "1-2 sampled loss sets of <= 4 shards per file"))
+                                            if T else "1-2 sampled loss sets of <= 4 shards per file",
+                                            "about 1200 (900 witnesses of <= 10 steps spread over the signature groups + 300 random ones of 18 steps "
+                                            "with two encode/decode cycles)" if T else "92 (witnesses of <= 9 steps spread over the signature groups)",
+                                            "10" if T else "2"))
     ctx.exhaustive = bool(T)
     ctx.assumptions += [
         "data file content is the progression Dat(i) = ((ka*(i mod 251)+kb) mod 251)+1 with a random key per file; bytes read "
@@ -219,4 +371,11 @@ def run(ctx):
         "small block divides large block (as 1 MiB divides 1 GiB); Reed-Solomon arithmetic itself is trusted",
         "WriteDatFile / WriteEcFiles with the production constants run on files < 10 GiB only, i.e. small rows only: the "
         "decoder's large-row arithmetic is decided on the model (EcLayout!DecodeTreeExact), not on the real code",
+        "volume life cycle: one volume (id 1, version 3, replication 000, no ttl), one cookie, content tokens of 11 B .. 4 MiB "
+        "(fixed pseudo-random strings, read back and mapped to their token by exact comparison), 3 keys; reads in the EC phase "
+        "mirror Store.ReadEcShardNeedle for local shards (no master, no remote shards); the 'stale' .ecx is the file as it was "
+        "when the journal was last empty (what a server that missed the deletions holds; ec.decode copies only the .ecj to it)",
+        "FindDatFileSize: any prefix of the original .dat is admitted (the driver hashes that prefix, the spec compares), as "
+        "long as every live key is readable afterwards; set-up steps before the first encoding (plain volume writes / "
+        "deletes) that fail void the execution instead of failing the property",
     ]
